@@ -33,8 +33,8 @@ LEVEL_TEXT = ('Theorems (Props/C09.v): the reference decoder accepts exactly the
               'TEMPERATURE and HEIGHT/PRESSURE (Model/TempHp.v, Proofs/TempHpProofs.v; layered record files over the One3d codec; both Memmap readers hand-modelled incl. the for-loop fall-through, the lazy reshapes and the marker check): C09_temperature_dec_enc, C09_heightpres_dec_enc, C09_temperature_reader_presents_content, '
               'C09_heightpres_reader_presents_content, C09_temperature_single_step_refuted, C09_heightpres_single_step_refuted (single-step files raise: region 11). '
               'Tie H: constructors TD / HD of Corr/C09.v. '
-              'WIND (Model/Wind.v, Proofs/WindProofs.v; Memmap reader hand-modelled incl. the RecordFile walk of its __init__, with a three-valued result read / raise / never returns): C09_wind_dec_enc, C09_wind_reader_presents_content_partial (two or more cells, 12 * steps < body + 4), '
-              'C09_wind_reader_refuted (5-step 2x1x1 file raises = new finding wind-long-file-step-miscount, region 19; 1x1 file never returns = region 12). '
+              'WIND (Model/Wind.v, Proofs/WindProofs.v; Memmap reader hand-modelled incl. the RecordFile walk of its __init__, with a three-valued result read / raise / never returns): C09_wind_dec_enc, C09_wind_reader_presents_content at full strength (two or more cells, any number of steps; reader as repaired by '
+              'db74c5b / d3c85b3), C09_wind_1x1_refuted (1x1 grids: region 12). '
               'Tie H: constructor WD.')
 LEVEL_NOTE = ('Trusted: Coq kernel+vm_compute, py2coq, the harness. CAMx met formats, landuse and bpch: record framing proved generically, layouts compared by '
               'correspondence only (see evidence distribution).')
@@ -175,7 +175,7 @@ def gen(rng, n, tier):  # noqa: F811
             c = M.gen_lb_thin(rng, tier)
             out.append(dict(kind='lbdy-thin', content=c, write=True))
     # cloud/rain files, 3-field (< 4.3) and 5-field layouts, against the independent reference encoder/decoder
-    # wind files with many steps on tiny grids: the Memmap reader's step count runs ahead of the file (region 19)
+    # wind files with many steps on tiny grids (the Memmap reader's step count ran ahead of the file before d3c85b3)
     for i in range(max(2, n // 60)):
         c = M.gen_met(rng, fmt='wind', tier=tier, rollover=0.0, min_steps=3)
         c['nx'], c['ny'], c['nz'] = rng.choice([(2, 1, 1), (1, 2, 1), (3, 1, 1), (2, 1, 2)])
